@@ -228,8 +228,8 @@ def _field_assigns(body, field, adt_suffix):
     return out
 
 
-def r5_mechanism_typestate(chk):
-    r = chk.rule("R5", "a mechanism reports Ready only after its verification step succeeded", "T3 guarded-by",
+def r5_mechanism_typestate(chk, rid="R5"):
+    r = chk.rule(rid, "a mechanism reports Ready only after its verification step succeeded", "T3 guarded-by",
                  "PLAIN: the server accepts (state=ServerSendWelcome) only under HELLO && expected_username.map_or(false, ==) && expected_password.map_or(false, ==); Ready is assigned only from ServerSendWelcome / on WELCOME. CURVE: status=Ready only after process_client_initiate()? / build_client_initiate()?. Noise: status=Ready only under is_handshake_finished()")
     for cfg, prog in chk.configs():
         # ---- PLAIN
